@@ -29,6 +29,9 @@ def gen(R):
         "bad_expr": R.bool(1, 8),
         "initial": R.choice(["0", "0", "1"]),
         "legacy": R.bool(),
+        # state_hold: the state condition occurs only after the expression stayed true for this long (deadlines fall on
+        # x.3 / x.8 / 6.55, never on an operation, the time trigger, the time-out or a cancellation instant)
+        "hold": R.choice([None, None, None, 1.3]),
     }
     ops = []
     t = 0.0
@@ -58,6 +61,8 @@ def call_src(cfg):
         kw.append(f"state_trigger={expr!r}")
         if cfg["check_now"] is not None:
             kw.append(f"state_check_now={cfg['check_now']}")
+        if cfg.get("hold") is not None:
+            kw.append(f"state_hold={cfg['hold']}")
     if "event" in cfg["conds"]:
         kw.append("event_trigger=['ev1', 'n > 1']" if cfg["event_filter"] else "event_trigger='ev1'")
     if "time" in cfg["conds"]:
@@ -106,10 +111,14 @@ def model(case):
         if cfg["timeout"] is not None:
             return ("ret", T_CALL + cfg["timeout"], {"trigger_type": "timeout"})
         return ("ret", T_CALL, {"trigger_type": "none"})
+    hold = cfg.get("hold") if "state" in conds else None
+    pending = None  # (deadline, payload of the first true evaluation) while a state_hold is running
     if "state" in conds and check_now:
         try:
             if truth(v):
-                return ("ret", T_CALL, {"trigger_type": "state"})
+                if hold is None:
+                    return ("ret", T_CALL, {"trigger_type": "state"})
+                pending = (T_CALL + hold, {"trigger_type": "state"})
         except ValueError:
             return ("exc", T_CALL, "ValueError")
     if cfg["timeout"] is not None:
@@ -123,6 +132,8 @@ def model(case):
     for t, op, arg in case["ops"]:
         if t <= T_CALL:
             continue
+        if pending is not None and pending[0] <= t:
+            break  # the hold completes before this operation
         if op == "set" and "state" in conds:
             if arg == cur:
                 continue
@@ -131,10 +142,16 @@ def model(case):
                 ok = truth(cur)
             except ValueError:
                 cands.append((t, 1, "exc", "ValueError"))
+                pending = None
                 break
-            if ok:
+            if ok and hold is not None:
+                if pending is None:
+                    pending = (t + hold, {"trigger_type": "state", "var_name": "pyscript.v", "value": cur, "old_value": old})
+            elif ok:
                 cands.append((t, 1, "ret", {"trigger_type": "state", "var_name": "pyscript.v", "value": cur, "old_value": old}))
                 break
+            else:
+                pending = None
         elif op == "set":
             cur = arg
         elif op == "event" and "event" in conds:
@@ -149,6 +166,8 @@ def model(case):
             if arg == "hook1":
                 cands.append((t, 1, "ret", {"trigger_type": "webhook", "webhook_id": "hook1", "payload": str({"a": "b"})}))
                 break
+    if pending is not None:
+        cands.append((pending[0], 1, "ret", pending[1]))
     if not cands:
         return ("waiting", None, None)
     cands.sort(key=lambda x: (x[0], x[1]))
